@@ -19,6 +19,8 @@ def correspondence(ctx):
     def versions_of(fam, i):
         if fam.startswith(("pushes", "long", "huge", "trunc", "many")):
             return G.VERS
+        if fam.startswith(("lead256", "nbhd", "tmpl", "mn-grid", "witness", "empty")):
+            return G.BTC + [G.FORK[i % 6]]
         return [G.VERS[i % 8], G.VERS[(i * 7 + 3) % 8]]
     S.run(ctx, cases, versions_of, project)
     blackbox(ctx)
